@@ -210,7 +210,7 @@ func drawCurve(rt *rapid.T) *ecc.Curve {
 
 // TestECDSA: random (curve, key, nonce, SPKI form, plain/DER, challenge, mutation class).
 func TestECDSA(t *testing.T) {
-	evid.RapidCheck(t, 1600, 90000, func(rt *rapid.T) {
+	evid.RapidCheck(t, 1600, 75000, func(rt *rapid.T) {
 		c := drawCurve(rt)
 		form := rapid.SampledFrom(ecForms).Draw(rt, "form")
 		der := rapid.Bool().Draw(rt, "der")
